@@ -690,6 +690,11 @@ func checkAndPropagateArgs(
 			if m.ctx.IsCheckRound() {
 				return err
 			}
+
+			// the rounds that do not report it must not bind the surplus
+			// positional to a keyword parameter either (which keyword it
+			// would reach depends on the order of their names)
+			break
 		}
 
 		if isNotDefineArgArgsError(isKeyTypeDefineArg, sortedArgTs, argIdx) && !definedArgT.HasDefault() {
